@@ -341,9 +341,9 @@ class Attachment:
                  string=None, base_url=None, url_fetcher=default_url_fetcher,
                  name=None, description=None, created=None, modified=None,
                  relationship='Unspecified'):
-        self.source = _select_source(
-            guess, filename, url, file_obj, string, base_url=base_url,
-            url_fetcher=url_fetcher)
+        self._source = (
+            (guess, filename, url, file_obj, string),
+            {'base_url': base_url, 'url_fetcher': url_fetcher})
         self.name = name
         self.description = description
         self.relationship = relationship
@@ -361,6 +361,12 @@ class Attachment:
                 modified = datetime.now()
         self.created = created
         self.modified = modified
+
+    @property
+    def source(self):
+        """A new context manager for each use: a document can be written twice."""
+        args, kwargs = self._source
+        return _select_source(*args, **kwargs)
 
 
 @contextlib.contextmanager
